@@ -97,3 +97,517 @@ Proof.
   intros H. unfold image_frame. cbv zeta. cbn [fst].
   apply tracks_wrap_fold. apply tracks_cluster. exact H.
 Qed.
+
+(* ---------------------------------------------------------------- one bond step *)
+Lemma kseq_wrap r B d : vsub d (latv B (kseq r B d)) = wrap_seq r B d.
+Proof.
+  unfold kseq, wrap_seq, latv. cbv zeta.
+  apply vec_eq; unfold vsub, lat, vadd, vscale, avec, bvec, cvec, vx, vy, vz; cbn [fst snd]; ring.
+Qed.
+
+Lemma st_pos_shift_same B k st i : (i < length st)%nat ->
+  st_pos (shift_atom B k st i) i = vsub (st_pos st i) (latv B k).
+Proof. intros H. unfold shift_atom, st_pos at 1. now rewrite nth_set_nth_eq by exact H. Qed.
+
+Lemma st_pos_shift_other B k st i j : i <> j -> st_pos (shift_atom B k st i) j = st_pos st j.
+Proof. intros H. unfold shift_atom, st_pos at 1. now rewrite nth_set_nth_neq by exact H. Qed.
+
+Lemma shift_atom_length B k st i : length (shift_atom B k st i) = length st.
+Proof. unfold shift_atom. apply set_nth_length. Qed.
+
+Lemma whole_step_pos_b B st a b : (b < length st)%nat ->
+  st_pos (whole_step B st (a, b)) b = vadd (st_pos st a) (wrap_seq rnd_haz B (vsub (st_pos st b) (st_pos st a))).
+Proof.
+  intros H. unfold whole_step. cbn [fst snd]. rewrite st_pos_shift_same by exact H.
+  rewrite <- kseq_wrap.
+  apply vec_eq; unfold vsub, vadd, vx, vy, vz; cbn [fst snd]; ring.
+Qed.
+
+Lemma whole_step_pos_other B st a b j : j <> b -> st_pos (whole_step B st (a, b)) j = st_pos st j.
+Proof. intros H. unfold whole_step. cbn [fst snd]. apply st_pos_shift_other. congruence. Qed.
+
+(* ---------------------------------------------------------------- parent-ordered walks *)
+(* every atom that has already occurred in a bond (as either end) is never moved again *)
+Fixpoint parent_ordered (seen : list nat) (l : list (nat * nat)) : Prop :=
+  match l with
+  | [] => True
+  | (a, b) :: r => a <> b /\ ~ In b seen /\ parent_ordered (a :: b :: seen) r
+  end.
+
+(* the bonded pair can be brought to a separation shorter than cn/cd by a lattice translation *)
+Definition has_short_image (B : box) (cn cd : Z) (xyz : list vec) (bond : nat * nat) : Prop :=
+  exists k1 k2 k3, norm2 (vsub (vsub (pos xyz (snd bond)) (pos xyz (fst bond))) (lat B k1 k2 k3)) * (cd * cd) < cn * cn.
+Definition short_now (cn cd : Z) (st : list atom_st) (bond : nat * nat) : Prop :=
+  norm2 (vsub (st_pos st (snd bond)) (st_pos st (fst bond))) * (cd * cd) < cn * cn.
+
+Lemma lat_sub B a1 a2 a3 b1 b2 b3 : vsub (lat B a1 a2 a3) (lat B b1 b2 b3) = lat B (a1 - b1) (a2 - b2) (a3 - b3).
+Proof. apply vec_eq; unfold vsub, lat, vadd, vscale, avec, bvec, cvec, vx, vy, vz; cbn [fst snd]; ring. Qed.
+
+Lemma whole_walk_short B cn cd xyz :
+  box_ok B -> 0 < cd -> 0 <= cn -> half_width_ok B cn cd ->
+  forall l seen st done,
+    tracks B xyz st ->
+    parent_ordered seen l ->
+    (forall bond, In bond l -> (snd bond < length xyz)%nat /\ has_short_image B cn cd xyz bond) ->
+    (forall bond, In bond done -> In (fst bond) seen /\ In (snd bond) seen /\ short_now cn cd st bond) ->
+    forall bond, In bond (done ++ l) -> short_now cn cd (make_whole B l st) bond.
+Proof.
+  intros HB Hcd Hcn HW. induction l as [|(a, b) l IH]; intros seen st done Htr Hpo Hl Hdone bond Hin.
+  - rewrite app_nil_r in Hin. cbn. now apply Hdone.
+  - cbn [parent_ordered] in Hpo. destruct Hpo as (Hab & Hb & Hpo).
+    unfold make_whole. cbn [fold_left]. fold (make_whole B l (whole_step B st (a, b))).
+    destruct Htr as (Hlen & Hpos).
+    destruct (Hl (a, b) (or_introl eq_refl)) as (Hbl & (k1 & k2 & k3 & Hshort)). cbn [fst snd] in Hbl, Hshort.
+    assert (Hbl' : (b < length st)%nat) by lia.
+    apply (IH (a :: b :: seen) (whole_step B st (a, b)) (done ++ [(a, b)])).
+    + apply tracks_whole_step. now split.
+    + exact Hpo.
+    + intros bd Hbd. apply Hl. now right.
+    + intros bd Hbd. apply in_app_or in Hbd. destruct Hbd as [Hbd|[<-|[]]].
+      * destruct (Hdone bd Hbd) as (H1 & H2 & H3). split; [now right; right|]. split; [now right; right|].
+        unfold short_now in *.
+        rewrite (whole_step_pos_other B st a b (snd bd)) by (intros E; apply Hb; rewrite <- E; exact H2).
+        rewrite (whole_step_pos_other B st a b (fst bd)) by (intros E; apply Hb; rewrite <- E; exact H1).
+        exact H3.
+      * cbn [fst snd]. split; [now left|]. split; [now right; left|].
+        unfold short_now. cbn [fst snd].
+        rewrite whole_step_pos_b by exact Hbl'. rewrite whole_step_pos_other by exact Hab.
+        set (d := vsub (st_pos st b) (st_pos st a)).
+        (* d is the original displacement up to a lattice vector: the short image is an image of d *)
+        assert (Ed : exists m1 m2 m3, vsub (vsub (pos xyz b) (pos xyz a)) (lat B k1 k2 k3) = vsub d (lat B m1 m2 m3)).
+        { subst d. rewrite (Hpos a), (Hpos b). unfold latv.
+          set (sa := st_shift st a). set (sb := st_shift st b).
+          exists (k1 - vx sb + vx sa), (k2 - vy sb + vy sa), (k3 - vz sb + vz sa).
+          apply vec_eq; unfold vsub, lat, vadd, vscale, avec, bvec, cvec, vx, vy, vz; cbn [fst snd]; ring. }
+        destruct Ed as (m1 & m2 & m3 & Ed). rewrite Ed in Hshort.
+        destruct HW as (W1 & W2 & W3).
+        rewrite (wrap_seq_finds rnd_haz B d m1 m2 m3 cn cd HB Hcd Hcn (fun n dd H => rnd_haz_bound n dd H) W1 W2 W3 Hshort).
+        replace (vsub (vadd (st_pos st a) (vsub d (lat B m1 m2 m3))) (st_pos st a)) with (vsub d (lat B m1 m2 m3)); [exact Hshort|].
+        apply vec_eq; unfold vsub, vadd, vx, vy, vz; cbn [fst snd]; ring.
+    + rewrite <- app_assoc. exact Hin.
+Qed.
+
+(* a separation shorter than half of every diagonal entry is the minimum over all lattice images *)
+Lemma short_is_minimum B cn cd d k1 k2 k3 :
+  box_ok B -> 0 < cd -> 0 <= cn -> half_width_ok B cn cd ->
+  norm2 d * (cd * cd) < cn * cn -> norm2 d <= norm2 (vsub d (lat B k1 k2 k3)).
+Proof.
+  intros HB Hcd Hcn HW Hs.
+  destruct (Z_le_gt_dec (norm2 d) (norm2 (vsub d (lat B k1 k2 k3)))) as [H|H]; [exact H|exfalso].
+  (* the other image is shorter still, hence also short: both are THE wrapped image, so the lattice vector is 0 *)
+  assert (Hs' : norm2 (vsub d (lat B k1 k2 k3)) * (cd * cd) < cn * cn) by nia.
+  destruct HW as (W1 & W2 & W3).
+  pose proof (wrap_seq_finds rnd_haz B d k1 k2 k3 cn cd HB Hcd Hcn (fun n dd H => rnd_haz_bound n dd H) W1 W2 W3 Hs') as E1.
+  assert (Hs0 : norm2 (vsub d (lat B 0 0 0)) * (cd * cd) < cn * cn).
+  { replace (vsub d (lat B 0 0 0)) with d; [exact Hs|]. apply vec_eq; unfold vsub, lat, vadd, vscale, avec, bvec, cvec, vx, vy, vz; cbn [fst snd]; ring. }
+  pose proof (wrap_seq_finds rnd_haz B d 0 0 0 cn cd HB Hcd Hcn (fun n dd H => rnd_haz_bound n dd H) W1 W2 W3 Hs0) as E0.
+  rewrite E1 in E0. rewrite E0 in H.
+  replace (vsub d (lat B 0 0 0)) with d in H; [lia|].
+  apply vec_eq; unfold vsub, lat, vadd, vscale, avec, bvec, cvec, vx, vy, vz; cbn [fst snd]; ring.
+Qed.
+
+(* ---------------------------------------------------------------- packaged: parent-ordered walk *)
+Theorem whole_parent_ordered B cn cd xyz l :
+  box_ok B -> 0 < cd -> 0 <= cn -> half_width_ok B cn cd ->
+  parent_ordered [] l ->
+  (forall bond, In bond l -> (snd bond < length xyz)%nat /\ has_short_image B cn cd xyz bond) ->
+  forall bond, In bond l ->
+    let st := make_whole B l (init_state xyz) in
+    let d := vsub (st_pos st (snd bond)) (st_pos st (fst bond)) in
+    norm2 d * (cd * cd) < cn * cn /\ forall k1 k2 k3, norm2 d <= norm2 (vsub d (lat B k1 k2 k3)).
+Proof.
+  intros HB Hcd Hcn HW Hpo Hl bond Hin st d.
+  assert (Hs : short_now cn cd st bond).
+  { apply (whole_walk_short B cn cd xyz HB Hcd Hcn HW l [] (init_state xyz) []); try assumption.
+    - apply tracks_init.
+    - intros bd [].
+  }
+  split; [exact Hs|]. intros k1 k2 k3. now apply (short_is_minimum B cn cd d k1 k2 k3 HB Hcd Hcn HW).
+Qed.
+
+(* the order as found (sorted on the first atom) is not parent-ordered in general: a bonded pair stays split *)
+Definition w_box : box := mkBox 4096 0 4096 0 0 4096.
+Definition w_xyz : list vec := [(1000, 1000, 1000); (5196, 1100, 1000); (1050, 1100, 1000)].
+Definition w_bonds : list (nat * nat) := [(0%nat, 2%nat); (1%nat, 2%nat)].
+
+Lemma whole_any_order_counterexample :
+  exists B cn cd xyz added,
+    box_ok B /\ 0 < cd /\ 0 <= cn /\ half_width_ok B cn cd /\
+    (forall bond, In bond added -> (snd bond < length xyz)%nat /\ has_short_image B cn cd xyz bond) /\
+    exists bond, In bond added /\
+      ~ short_now cn cd (make_whole_cur B added xyz) bond.
+Proof.
+  exists w_box, 300, 1, w_xyz, w_bonds.
+  split; [unfold box_ok, w_box; cbn; lia|]. split; [lia|]. split; [lia|].
+  split; [unfold half_width_ok, w_box; cbn; lia|].
+  split.
+  - intros bond [<-|[<-|[]]]; (split; [cbn; lia|]).
+    + exists 0, 0, 0. vm_compute. reflexivity.
+    + exists (-1), 0, 0. vm_compute. reflexivity.
+  - exists (0%nat, 2%nat). split; [now left|]. unfold short_now. vm_compute. intros H. discriminate H.
+Qed.
+
+(* the same system with the repaired walk *)
+Lemma whole_fix_on_counterexample :
+  forall bond, In bond w_bonds -> short_now 300 1 (make_whole_fix w_box w_bonds w_xyz) bond.
+Proof. intros bond [<-|[<-|[]]]; unfold short_now; vm_compute; reflexivity. Qed.
+
+(* ---------------------------------------------------------------- minimum-image observables *)
+(* lattice moves do not change the set of lattice images of any interatomic displacement *)
+Lemma images_unchanged B xyz st a b v : tracks B xyz st ->
+  ((exists k1 k2 k3, vsub (vsub (st_pos st b) (st_pos st a)) (lat B k1 k2 k3) = v) <->
+   (exists k1 k2 k3, vsub (vsub (pos xyz b) (pos xyz a)) (lat B k1 k2 k3) = v)).
+Proof.
+  intros (_ & Hp). rewrite (Hp a), (Hp b). unfold latv.
+  set (sa := st_shift st a). set (sb := st_shift st b).
+  split; intros (k1 & k2 & k3 & <-).
+  - exists (k1 + vx sb - vx sa), (k2 + vy sb - vy sa), (k3 + vz sb - vz sa).
+    apply vec_eq; unfold vsub, lat, vadd, vscale, avec, bvec, cvec, vx, vy, vz; cbn [fst snd]; ring.
+  - exists (k1 - vx sb + vx sa), (k2 - vy sb + vy sa), (k3 - vz sb + vz sa).
+    apply vec_eq; unfold vsub, lat, vadd, vscale, avec, bvec, cvec, vx, vy, vz; cbn [fst snd]; ring.
+Qed.
+
+(* ---------------------------------------------------------------- inplace plumbing *)
+Lemma apply_frames_copy f t :
+  snd (apply_frames f false t) = t /\
+  t_cells (fst (apply_frames f false t)) = t_cells t /\ t_time (fst (apply_frames f false t)) = t_time t.
+Proof. unfold apply_frames. cbn. tauto. Qed.
+
+Lemma apply_frames_inplace f t :
+  snd (apply_frames f true t) = fst (apply_frames f true t) /\
+  t_cells (fst (apply_frames f true t)) = t_cells t /\ t_time (fst (apply_frames f true t)) = t_time t /\
+  fst (apply_frames f true t) = fst (apply_frames f false t).
+Proof. unfold apply_frames. cbn. tauto. Qed.
+
+(* ---------------------------------------------------------------- molecules move as rigid units *)
+Lemma st_shift_shift_same B k st i : (i < length st)%nat ->
+  st_shift (shift_atom B k st i) i = vadd (st_shift st i) k.
+Proof. intros H. unfold shift_atom, st_shift at 1. now rewrite nth_set_nth_eq by exact H. Qed.
+
+Lemma st_shift_shift_other B k st i j : i <> j -> st_shift (shift_atom B k st i) j = st_shift st j.
+Proof. intros H. unfold shift_atom, st_shift at 1. now rewrite nth_set_nth_neq by exact H. Qed.
+
+Lemma fold_shift_length B k m st : length (fold_left (shift_atom B k) m st) = length st.
+Proof. revert st; induction m as [|x m IH]; intros st; cbn [fold_left]; [reflexivity|]. now rewrite IH, shift_atom_length. Qed.
+
+Lemma fold_shift_out B k m st a : ~ In a m -> st_shift (fold_left (shift_atom B k) m st) a = st_shift st a.
+Proof.
+  revert st; induction m as [|x m IH]; intros st H; cbn [fold_left]; [reflexivity|].
+  rewrite IH by (intros Hin; apply H; now right).
+  apply st_shift_shift_other. intros ->. apply H. now left.
+Qed.
+
+Lemma fold_shift_in B k m st a : NoDup m -> (forall x, In x m -> (x < length st)%nat) -> In a m ->
+  st_shift (fold_left (shift_atom B k) m st) a = vadd (st_shift st a) k.
+Proof.
+  revert st; induction m as [|x m IH]; intros st Hnd Hv Hin; [destruct Hin|].
+  cbn [fold_left]. inversion Hnd as [|? ? Hx Hnd']; subst.
+  destruct Hin as [->|Hin].
+  - rewrite fold_shift_out by exact Hx. apply st_shift_shift_same. apply Hv. now left.
+  - rewrite IH; [|exact Hnd'|intros y Hy; rewrite shift_atom_length; apply Hv; now right|exact Hin].
+    rewrite st_shift_shift_other; [reflexivity|]. intros ->. contradiction.
+Qed.
+
+Lemma concat_nodup_shared {A} (mols : list (list A)) m m' a :
+  NoDup (concat mols) -> In m mols -> In m' mols -> In a m -> In a m' -> m = m'.
+Proof.
+  induction mols as [|x mols IH]; intros Hnd Hm Hm' Ha Ha'; [destruct Hm|].
+  cbn [concat] in Hnd.
+  assert (Hsplit : NoDup x /\ NoDup (concat mols) /\ forall y, In y x -> In y (concat mols) -> False).
+  { clear - Hnd. induction x as [|y x IHx]; cbn [app] in Hnd.
+    - split; [constructor|]. split; [exact Hnd|]. intros y [].
+    - inversion Hnd as [|? ? Hy Hnd']; subst. destruct (IHx Hnd') as (H1 & H2 & H3).
+      split; [constructor; [intros Hin; apply Hy; apply in_or_app; now left|exact H1]|]. split; [exact H2|].
+      intros z [->|Hz] Hc; [apply Hy; apply in_or_app; now right|now apply (H3 z)]. }
+  destruct Hsplit as (_ & Hnd2 & Hdis).
+  destruct Hm as [->|Hm], Hm' as [->|Hm'].
+  - reflexivity.
+  - exfalso. apply (Hdis a Ha). apply in_concat. now exists m'.
+  - exfalso. apply (Hdis a Ha'). apply in_concat. now exists m.
+  - now apply IH.
+Qed.
+
+Lemma concat_nodup_each {A} (mols : list (list A)) m : NoDup (concat mols) -> In m mols -> NoDup m.
+Proof.
+  induction mols as [|x mols IH]; intros Hnd Hm; [destruct Hm|]. cbn [concat] in Hnd.
+  destruct Hm as [->|Hm].
+  - clear - Hnd. induction m as [|y m IHm]; [constructor|]. cbn [app] in Hnd. inversion Hnd as [|? ? Hy Hnd']; subst.
+    constructor; [intros Hin; apply Hy; apply in_or_app; now left|now apply IHm].
+  - apply IH; [|exact Hm]. clear - Hnd. induction x as [|y x IHx]; [exact Hnd|]. cbn [app] in Hnd. inversion Hnd; subst. now apply IHx.
+Qed.
+
+(* within every molecule all atoms have received the same additional lattice multipliers *)
+Definition rigid (mols : list (list nat)) (st0 st : list atom_st) : Prop :=
+  length st = length st0 /\
+  forall m, In m mols -> forall a b, In a m -> In b m ->
+    vsub (st_shift st a) (st_shift st0 a) = vsub (st_shift st b) (st_shift st0 b).
+
+Lemma rigid_refl mols st : rigid mols st st.
+Proof. split; [reflexivity|]. intros m _ a b _ _. apply vec_eq; unfold vsub, vx, vy, vz; cbn [fst snd]; ring. Qed.
+
+Lemma rigid_fold_shift B k mols m0 st0 st :
+  NoDup (concat mols) -> (forall x, In x (concat mols) -> (x < length st0)%nat) ->
+  (In m0 mols \/ m0 = []) -> rigid mols st0 st -> rigid mols st0 (fold_left (shift_atom B k) m0 st).
+Proof.
+  intros Hnd Hv Hm0 (Hlen & Hr). split; [now rewrite fold_shift_length|].
+  destruct Hm0 as [Hm0| ->]; [|exact Hr].
+  intros m Hm a b Ha Hb.
+  assert (Hnd0 : NoDup m0) by (now apply (concat_nodup_each mols)).
+  assert (Hv0 : forall x, In x m0 -> (x < length st)%nat).
+  { intros x Hx. rewrite Hlen. apply Hv. apply in_concat. now exists m0. }
+  destruct (in_dec Nat.eq_dec a m0) as [Ha0|Ha0].
+  - assert (m = m0) by (now apply (concat_nodup_shared mols m m0 a)). subst m.
+    rewrite !fold_shift_in by assumption. specialize (Hr m0 Hm0 a b Ha Hb).
+    unfold vsub, vadd, vx, vy, vz in *; cbn [fst snd] in *. inversion Hr as [[E1 E2 E3]].
+    f_equal; [f_equal|]; lia.
+  - assert (Hb0 : ~ In b m0).
+    { intros Hb0. apply Ha0. assert (m = m0) by (now apply (concat_nodup_shared mols m m0 b)). now subst. }
+    rewrite !fold_shift_out by assumption. exact (Hr m Hm a b Ha Hb).
+Qed.
+
+Lemma nth_in_or_nil {A} (l : list (list A)) i : In (nth i l []) l \/ nth i l [] = [].
+Proof.
+  destruct (Nat.lt_ge_cases i (length l)) as [H|H]; [left; now apply nth_In|right; now apply nth_overflow].
+Qed.
+
+Lemma rigid_cluster B mols anchors cts fuel used avail st0 st :
+  NoDup (concat mols) -> (forall x, In x (concat mols) -> (x < length st0)%nat) ->
+  (forall m, In m anchors -> In m mols) ->
+  rigid mols st0 st -> rigid mols st0 (cluster fuel B anchors cts used avail st).
+Proof.
+  intros Hnd Hv Hsub. revert used avail st; induction fuel as [|f IH]; intros used avail st H; [destruct avail; exact H|].
+  cbn [cluster]. destruct avail as [|a avail]; [exact H|].
+  destruct (cluster_pick anchors cts used (a :: avail)) as (((next, nearest), a1), a2).
+  apply IH. apply rigid_fold_shift; try assumption.
+  destruct (nth_in_or_nil anchors next) as [Hin|He]; [left; now apply Hsub|now right].
+Qed.
+
+Lemma rigid_wrap_fold B mols SA NA others st0 st :
+  NoDup (concat mols) -> (forall x, In x (concat mols) -> (x < length st0)%nat) ->
+  (forall m, In m others -> In m mols) ->
+  rigid mols st0 st ->
+  rigid mols st0 (fold_left (fun s mol => fold_left (shift_atom B (wrap_mol_k B s SA NA mol)) mol s) others st).
+Proof.
+  intros Hnd Hv. revert st; induction others as [|mol others IH]; intros st Hsub H; cbn [fold_left]; [exact H|].
+  apply IH; [intros m Hm; apply Hsub; now right|].
+  apply rigid_fold_shift; try assumption. left. apply Hsub. now left.
+Qed.
+
+Theorem image_frame_rigid B anchors others st :
+  NoDup (concat (anchors ++ others)) -> (forall x, In x (concat (anchors ++ others)) -> (x < length st)%nat) ->
+  rigid (anchors ++ others) st (fst (fst (image_frame B anchors others st))).
+Proof.
+  intros Hnd Hv. unfold image_frame. cbv zeta. cbn [fst].
+  apply rigid_wrap_fold; try assumption; [intros m Hm; apply in_or_app; now right|].
+  apply rigid_cluster; try assumption; [intros m Hm; apply in_or_app; now left|].
+  apply rigid_refl.
+Qed.
+
+(* ---------------------------------------------------------------- the repaired walk (certificate form) *)
+(* sigma: lattice multipliers that make the system whole (every bond shorter than cn/cd) *)
+Definition sigma_pos (B : box) (xyz : list vec) (sg : nat -> vec) (x : nat) : vec := vsub (pos xyz x) (latv B (sg x)).
+Definition sigma_disp (B : box) (xyz : list vec) (sg : nat -> vec) (bond : nat * nat) : vec :=
+  vsub (sigma_pos B xyz sg (snd bond)) (sigma_pos B xyz sg (fst bond)).
+Definition makes_whole (B : box) (cn cd : Z) (xyz : list vec) (sg : nat -> vec) (bonds : list (nat * nat)) : Prop :=
+  forall bond, In bond bonds -> norm2 (sigma_disp B xyz sg bond) * (cd * cd) < cn * cn.
+
+Lemma parent_ordered_b_sound seen l : parent_ordered_b seen l = true -> parent_ordered seen l.
+Proof.
+  revert seen; induction l as [|(a, b) l IH]; intros seen H; [exact I|].
+  cbn [parent_ordered_b fst snd] in H. apply andb_true_iff in H. destruct H as (H & H3).
+  apply andb_true_iff in H. destruct H as (H1 & H2).
+  cbn [parent_ordered]. split; [apply negb_true_iff, Nat.eqb_neq in H1; exact H1|].
+  split; [|now apply IH].
+  apply negb_true_iff in H2. intros Hin. clear - H2 Hin.
+  induction seen as [|x seen IHs]; [destruct Hin|]. cbn [memn] in H2. apply orb_false_iff in H2. destruct H2 as (E1 & E2).
+  destruct Hin as [->|Hin]; [rewrite Nat.eqb_refl in E1; discriminate|now apply IHs].
+Qed.
+
+(* along a parent-ordered walk whose edges are short in the whole configuration sigma, every walked pair ends
+   exactly at its sigma displacement *)
+Lemma whole_walk_sigma B cn cd xyz sg :
+  box_ok B -> 0 < cd -> 0 <= cn -> half_width_ok B cn cd ->
+  forall l seen st done,
+    tracks B xyz st ->
+    parent_ordered seen l ->
+    (forall bond, In bond l -> (snd bond < length xyz)%nat /\ norm2 (sigma_disp B xyz sg bond) * (cd * cd) < cn * cn) ->
+    (forall bond, In bond done -> In (fst bond) seen /\ In (snd bond) seen /\
+                  vsub (st_pos st (snd bond)) (st_pos st (fst bond)) = sigma_disp B xyz sg bond) ->
+    forall bond, In bond (done ++ l) ->
+      let st' := make_whole B l st in
+      vsub (st_pos st' (snd bond)) (st_pos st' (fst bond)) = sigma_disp B xyz sg bond.
+Proof.
+  intros HB Hcd Hcn HW. induction l as [|(a, b) l IH]; intros seen st done Htr Hpo Hl Hdone bond Hin.
+  - rewrite app_nil_r in Hin. cbn. now apply Hdone.
+  - cbn [parent_ordered] in Hpo. destruct Hpo as (Hab & Hb & Hpo).
+    unfold make_whole. cbn [fold_left]. fold (make_whole B l (whole_step B st (a, b))).
+    destruct Htr as (Hlen & Hpos).
+    destruct (Hl (a, b) (or_introl eq_refl)) as (Hbl & Hshort). cbn [fst snd] in Hbl.
+    assert (Hbl' : (b < length st)%nat) by lia.
+    apply (IH (a :: b :: seen) (whole_step B st (a, b)) (done ++ [(a, b)])).
+    + apply tracks_whole_step. now split.
+    + exact Hpo.
+    + intros bd Hbd. apply Hl. now right.
+    + intros bd Hbd. apply in_app_or in Hbd. destruct Hbd as [Hbd|[<-|[]]].
+      * destruct (Hdone bd Hbd) as (H1 & H2 & H3). split; [now right; right|]. split; [now right; right|].
+        rewrite (whole_step_pos_other B st a b (snd bd)) by (intros E; apply Hb; rewrite <- E; exact H2).
+        rewrite (whole_step_pos_other B st a b (fst bd)) by (intros E; apply Hb; rewrite <- E; exact H1).
+        exact H3.
+      * cbn [fst snd]. split; [now left|]. split; [now right; left|].
+        rewrite whole_step_pos_b by exact Hbl'. rewrite whole_step_pos_other by exact Hab.
+        set (d := vsub (st_pos st b) (st_pos st a)).
+        assert (Ed : exists m1 m2 m3, sigma_disp B xyz sg (a, b) = vsub d (lat B m1 m2 m3)).
+        { subst d. rewrite (Hpos a), (Hpos b). unfold sigma_disp, sigma_pos, latv. cbn [fst snd].
+          set (sa := st_shift st a). set (sb := st_shift st b). set (ga := sg a). set (gb := sg b).
+          exists (vx gb - vx ga - vx sb + vx sa), (vy gb - vy ga - vy sb + vy sa), (vz gb - vz ga - vz sb + vz sa).
+          apply vec_eq; unfold vsub, lat, vadd, vscale, avec, bvec, cvec, vx, vy, vz; cbn [fst snd]; ring. }
+        destruct Ed as (m1 & m2 & m3 & Ed). rewrite Ed in Hshort.
+        destruct HW as (W1 & W2 & W3).
+        rewrite (wrap_seq_finds rnd_haz B d m1 m2 m3 cn cd HB Hcd Hcn (fun n dd H => rnd_haz_bound n dd H) W1 W2 W3 Hshort).
+        rewrite Ed.
+        apply vec_eq; unfold vsub, vadd, vx, vy, vz; cbn [fst snd]; ring.
+    + rewrite <- app_assoc. exact Hin.
+Qed.
+
+Lemma is_bond_spec bonds e : is_bond bonds e = true -> In e bonds \/ In (snd e, fst e) bonds.
+Proof.
+  unfold is_bond. rewrite existsb_exists. intros (b & Hb & H).
+  apply orb_true_iff in H. destruct H as [H|H]; apply andb_true_iff in H; destruct H as (H1 & H2);
+    apply Nat.eqb_eq in H1, H2; destruct b as (b1, b2), e as (e1, e2); cbn [fst snd] in *; subst; tauto.
+Qed.
+
+Lemma sigma_disp_swap B xyz sg a b : norm2 (sigma_disp B xyz sg (b, a)) = norm2 (sigma_disp B xyz sg (a, b)).
+Proof. unfold sigma_disp, norm2, vsub, vx, vy, vz. cbn [fst snd]. ring. Qed.
+
+(* offset of an atom from its place in the whole configuration sigma *)
+Definition tau (B : box) (xyz : list vec) (sg : nat -> vec) (st : list atom_st) (x : nat) : vec :=
+  vsub (st_pos st x) (sigma_pos B xyz sg x).
+
+Lemma tau_edge B xyz sg st a b :
+  vsub (st_pos st b) (st_pos st a) = sigma_disp B xyz sg (a, b) -> tau B xyz sg st b = tau B xyz sg st a.
+Proof.
+  unfold tau, sigma_disp. cbn [fst snd].
+  generalize (st_pos st b) (st_pos st a) (sigma_pos B xyz sg b) (sigma_pos B xyz sg a).
+  intros [[x1 y1] z1] [[x2 y2] z2] [[x3 y3] z3] [[x4 y4] z4] H.
+  unfold vsub, vx, vy, vz in *; cbn [fst snd] in *. inversion H as [[E1 E2 E3]]. f_equal; [f_equal|]; lia.
+Qed.
+
+Lemma tau_root B xyz sg st out :
+  (forall e, In e out -> vsub (st_pos st (snd e)) (st_pos st (fst e)) = sigma_disp B xyz sg e) ->
+  forall fuel x, tau B xyz sg st (root_of out fuel x) = tau B xyz sg st x.
+Proof.
+  intros He. induction fuel as [|f IH]; intros x; [reflexivity|]. cbn [root_of].
+  destruct (find (fun e => Nat.eqb (snd e) x) out) as [e|] eqn:E; [|reflexivity].
+  apply find_some in E. destruct E as (Hin & Hx). apply Nat.eqb_eq in Hx.
+  rewrite IH. destruct e as (p, y). cbn [fst snd] in *. subst y. symmetry. apply tau_edge. exact (He (p, x) Hin).
+Qed.
+
+(* PARTIAL (certificate form): whenever the walk passes the executable check [walk_ok] -- it is a parent-first
+   walk made of bonds and joins both ends of every bond under one root -- and the system can be made whole at all
+   (sigma), every bonded pair ends exactly at its displacement in the whole configuration, hence shorter than cn/cd
+   and at its minimum image.  Missing for the unconditional statement: a proof that [tree_order] always passes
+   [walk_ok] (termination/coverage of the traversal); the correspondence run evaluates [walk_ok] on every system. *)
+Theorem whole_certified_walk B cn cd xyz sg bonds out :
+  box_ok B -> 0 < cd -> 0 <= cn -> half_width_ok B cn cd ->
+  walk_ok (length xyz) bonds out = true ->
+  makes_whole B cn cd xyz sg bonds ->
+  forall bond, In bond bonds ->
+    let st := make_whole B out (init_state xyz) in
+    let d := vsub (st_pos st (snd bond)) (st_pos st (fst bond)) in
+    d = sigma_disp B xyz sg bond /\ norm2 d * (cd * cd) < cn * cn /\
+    forall k1 k2 k3, norm2 d <= norm2 (vsub d (lat B k1 k2 k3)).
+Proof.
+  intros HB Hcd Hcn HW Hok Hsg bond Hin st d.
+  unfold walk_ok in Hok. apply andb_true_iff in Hok. destruct Hok as (Hok & Hcover).
+  apply andb_true_iff in Hok. destruct Hok as (Hok & Hvalid).
+  apply andb_true_iff in Hok. destruct Hok as (Hpo & Hedges).
+  apply parent_ordered_b_sound in Hpo.
+  rewrite forallb_forall in Hedges, Hvalid, Hcover.
+  assert (Hout : forall e, In e out -> (snd e < length xyz)%nat /\ norm2 (sigma_disp B xyz sg e) * (cd * cd) < cn * cn).
+  { intros e He. destruct (is_bond_spec bonds e (Hedges e He)) as [Hb|Hb].
+    - split; [|now apply Hsg]. specialize (Hvalid e Hb). apply andb_true_iff in Hvalid. destruct Hvalid as (_ & H2). now apply Nat.ltb_lt in H2.
+    - split.
+      + specialize (Hvalid _ Hb). cbn [fst snd] in Hvalid. apply andb_true_iff in Hvalid. destruct Hvalid as (H1 & _). now apply Nat.ltb_lt in H1.
+      + destruct e as (a, b). cbn [fst snd] in Hb. rewrite <- sigma_disp_swap. now apply Hsg. }
+  assert (Hedge : forall e, In e out -> vsub (st_pos st (snd e)) (st_pos st (fst e)) = sigma_disp B xyz sg e).
+  { intros e He. apply (whole_walk_sigma B cn cd xyz sg HB Hcd Hcn HW out [] (init_state xyz) []); try assumption.
+    - apply tracks_init.
+    - intros bd []. }
+  assert (Htau : tau B xyz sg st (snd bond) = tau B xyz sg st (fst bond)).
+  { rewrite <- (tau_root B xyz sg st out Hedge (length xyz) (snd bond)).
+    rewrite <- (tau_root B xyz sg st out Hedge (length xyz) (fst bond)).
+    specialize (Hcover bond Hin). apply Nat.eqb_eq in Hcover. now rewrite Hcover. }
+  assert (Ed : d = sigma_disp B xyz sg bond).
+  { subst d. unfold tau, sigma_disp in *. revert Htau.
+    generalize (st_pos st (snd bond)) (st_pos st (fst bond)) (sigma_pos B xyz sg (snd bond)) (sigma_pos B xyz sg (fst bond)).
+    intros [[x1 y1] z1] [[x2 y2] z2] [[x3 y3] z3] [[x4 y4] z4] Htau.
+    unfold vsub, vx, vy, vz in *; cbn [fst snd] in *. inversion Htau as [[E1 E2 E3]]. f_equal; [f_equal|]; lia. }
+  split; [exact Ed|]. assert (Hs : norm2 d * (cd * cd) < cn * cn) by (rewrite Ed; now apply Hsg).
+  split; [exact Hs|]. intros k1 k2 k3. now apply (short_is_minimum B cn cd d k1 k2 k3 HB Hcd Hcn HW).
+Qed.
+
+(* ---------------------------------------------------------------- packaged statements / examples for Props/C11.v *)
+Lemma image_frame_tracks B xyz walk anchors others :
+  tracks B xyz (fst (fst (image_molecules_frame B walk anchors others xyz))).
+Proof.
+  unfold image_molecules_frame. cbv zeta. apply tracks_image_frame.
+  destruct walk as [l|]; [apply tracks_make_whole|]; apply tracks_init.
+Qed.
+
+Lemma images_unchanged_whole B bonds xyz a b v :
+  let st := make_whole B bonds (init_state xyz) in
+  ((exists k1 k2 k3, vsub (vsub (st_pos st b) (st_pos st a)) (lat B k1 k2 k3) = v) <->
+   (exists k1 k2 k3, vsub (vsub (pos xyz b) (pos xyz a)) (lat B k1 k2 k3) = v)).
+Proof. intros st. apply images_unchanged. apply tracks_make_whole, tracks_init. Qed.
+
+Lemma images_unchanged_image B walk anchors others xyz a b v :
+  let st := fst (fst (image_molecules_frame B walk anchors others xyz)) in
+  ((exists k1 k2 k3, vsub (vsub (st_pos st b) (st_pos st a)) (lat B k1 k2 k3) = v) <->
+   (exists k1 k2 k3, vsub (vsub (pos xyz b) (pos xyz a)) (lat B k1 k2 k3) = v)).
+Proof. intros st. apply images_unchanged. apply image_frame_tracks. Qed.
+
+Lemma image_rigid_no_whole B anchors others xyz :
+  NoDup (concat (anchors ++ others)) -> (forall x, In x (concat (anchors ++ others)) -> (x < length xyz)%nat) ->
+  forall m, In m (anchors ++ others) -> forall a b, In a m -> In b m ->
+    st_shift (fst (fst (image_molecules_frame B None anchors others xyz))) a =
+    st_shift (fst (fst (image_molecules_frame B None anchors others xyz))) b.
+Proof.
+  intros Hnd Hv m Hm a b Ha Hb. unfold image_molecules_frame. cbv zeta.
+  assert (Hlen : length (init_state xyz) = length xyz) by apply map_length.
+  destruct (image_frame_rigid B anchors others (init_state xyz) Hnd) as (_ & Hr).
+  { intros x Hx. rewrite Hlen. now apply Hv. }
+  specialize (Hr m Hm a b Ha Hb).
+  assert (Z0 : forall x, st_shift (init_state xyz) x = (0, 0, 0)).
+  { intros x. unfold st_shift, init_state. destruct (Nat.lt_ge_cases x (length xyz)) as [H|H].
+    - now rewrite (nth_map_lt (fun p : vec => (p, (0, 0, 0))) xyz x (0, 0, 0)) by exact H.
+    - now rewrite nth_overflow by (rewrite map_length; lia). }
+  rewrite !Z0 in Hr. revert Hr.
+  generalize (st_shift (fst (fst (image_frame B anchors others (init_state xyz)))) a)
+             (st_shift (fst (fst (image_frame B anchors others (init_state xyz)))) b).
+  intros [[x1 y1] z1] [[x2 y2] z2] Hr. unfold vsub, vx, vy, vz in Hr; cbn [fst snd] in Hr.
+  inversion Hr as [[E1 E2 E3]]. f_equal; [f_equal|]; lia.
+Qed.
+
+(* examples *)
+Definition ex_xyz : list vec := [(1050, 1100, 1000); (1000 - 4096, 1000, 1000 + 8192); (5196, 1100, 1000)].
+Definition ex_walk : list (nat * nat) := [(0%nat, 1%nat); (0%nat, 2%nat)].
+Lemma ex_parent_ordered_hyps :
+  box_ok w_box /\ half_width_ok w_box 300 1 /\ parent_ordered [] ex_walk /\
+  (forall bond, In bond ex_walk -> (snd bond < length ex_xyz)%nat /\ has_short_image w_box 300 1 ex_xyz bond) /\
+  st_shift (make_whole w_box ex_walk (init_state ex_xyz)) 1 = (-1, 0, 2).
+Proof.
+  split; [unfold box_ok, w_box; cbn; lia|]. split; [unfold half_width_ok, w_box; cbn; lia|].
+  split; [cbn; repeat split; (lia || tauto)|].
+  split; [|vm_compute; reflexivity].
+  intros bond [<-|[<-|[]]]; (split; [cbn; lia|]).
+  - exists (-1), 0, 2. vm_compute. reflexivity.
+  - exists 1, 0, 0. vm_compute. reflexivity.
+Qed.
+
+Lemma ex_certificate :
+  walk_ok (length w_xyz) (map norm_bond w_bonds) (tree_order (length w_xyz) (map norm_bond w_bonds)) = true /\
+  makes_whole w_box 300 1 w_xyz (fun x => match x with 1%nat => (1, 0, 0) | _ => (0, 0, 0) end) (map norm_bond w_bonds).
+Proof.
+  split; [vm_compute; reflexivity|].
+  intros bond [<-|[<-|[]]]; vm_compute; reflexivity.
+Qed.
